@@ -93,6 +93,47 @@ def sweep(tier, jobs=16):
     return n, len(items), fails
 
 
+def _legacy_msg(magic, key, value, offset=0, attrs=0, length=None, klen=None, vlen=None):
+    import struct, zlib
+    body = struct.pack(">bb", magic, attrs) + (struct.pack(">q", 1000) if magic else b"")
+    body += struct.pack(">i", (-1 if key is None else len(key)) if klen is None else klen) + (key or b"")
+    body += struct.pack(">i", (-1 if value is None else len(value)) if vlen is None else vlen) + (value or b"")
+    m = struct.pack(">I", zlib.crc32(body) & 0xffffffff) + body
+    return struct.pack(">qi", offset, len(m) if length is None else length) + m
+
+
+def nested_inner_lengths():
+    """'nested compressed payloads with inconsistent inner lengths': gzip wrappers (v0, v1) around 1..3 inner messages in
+    which one Length / key length / value length field is replaced by a boundary value or by the value that points back to
+    an earlier message; both decoders; 5 s termination limit, no internal error"""
+    import gzip
+    signal.signal(signal.SIGALRM, _alarm)
+    n, fails = 0, []
+    for magic in (0, 1):
+        size = len(_legacy_msg(magic, b"k", b"v"))
+        vals = [-2 ** 31, -size - 12, -2 * size - 12, -13, -12, -11, -2, -1, 0, 1, size - 13, size, 2 ** 31 - 1]
+        for count in (1, 2, 3):
+            for victim in range(count):
+                for field in ("length", "klen", "vlen"):
+                    for v in vals:
+                        inner = b"".join(_legacy_msg(magic, b"k", b"v", offset=i, **({field: v} if i == victim else {}))
+                                         for i in range(count))
+                        wrapper = _legacy_msg(magic, None, gzip.compress(inner), offset=count - 1, attrs=1)
+                        n += 1
+                        for impl in ("c", "py"):
+                            try:
+                                r = outcome(impl, wrapper)
+                            except Exception as e:
+                                r = ("hang", repr(e))
+                            if r[0] in ("internal", "hang"):
+                                fails.append({"magic": magic, "inner_messages": count, "field": "%s of message %d := %d" % (field, victim, v),
+                                              "decoder": impl, "problem": "no termination within 5 s" if r[0] == "hang" else r[1],
+                                              "bytes": wrapper.hex()})
+                        if len(fails) >= 10:
+                            return n, fails
+    return n, fails
+
+
 def crc_detection():
     """a batch whose checksum does not match its content is reported invalid by both implementations"""
     n, fails = 0, []
@@ -132,10 +173,25 @@ def main():
           "bound": "%d valid buffers (magic 0/1/2, plain and gzip, < 400 bytes): every truncation point, every byte set to %s and "
                    "every lowest-bit flip; both decoders; 5 s termination limit per decode" % (ncorp, "0x00/0x7f/0x80/0xff" if a.tier == "quick" else "each of the 255 other values"),
           "failures": fails[:10], "failures_total": len(fails), "replay": {"script": REPLAY}})
+    n, fails = nested_inner_lengths()
+    emit({"name": "nested-inner-length-fields", "exhaustive": True, "cases": n, "distinct_nontrivial": n,
+          "bound": "gzip wrappers (v0, v1) around 1..3 inner messages, each Length / key length / value length field of each "
+                   "inner message in turn set to 13 boundary values (-2^31, back-pointing, -13, -12, -11, -2, -1, 0, 1, "
+                   "off-by-one of the real size, 2^31-1); both decoders; 5 s termination limit per decode",
+          "failures": fails[:10], "failures_total": len(fails), "replay": {"script": REPLAY_NESTED}})
     n, fails = crc_detection()
     emit({"name": "checksum-mismatch-detected-by-both", "exhaustive": True, "cases": n, "distinct_nontrivial": n,
           "bound": "the same corpus: one bit flipped in every byte the first batch's checksum covers; validate_crc() of both implementations",
           "failures": fails, "replay": {"script": REPLAY}})
+
+
+REPLAY_NESTED = '''
+import sys
+sys.path.insert(0, "/verif")
+from bounded import C10
+n, fails = C10.nested_inner_lengths()
+VIOLATED = bool(fails); DETAIL = "%d of %d wrappers with a hostile inner length field: %r" % (len(fails), n, [(f["decoder"], f["field"], f["problem"]) for f in fails[:3]])
+'''
 
 
 REPLAY = '''
